@@ -5,7 +5,7 @@ import ast
 
 from ..pyfacts import AnalysisError, src, parent
 from ..excflow import ExcFlow, is_subclass, handlers_of, caught
-from ..genfacts import GenFacts, GEN, ASM
+from ..genfacts import new_codegen, GenFacts, GEN, ASM
 from ..report import Remap
 
 MAIN = 'hidc/__main__.py'
@@ -308,6 +308,10 @@ def run(repo, chk):
     chk.expect(wl <= wr, 'C10.X2', 'writeln signatures have write twins', f'{sorted(map(str, wl - wr))}', 'hidc/ast/program.py')
 
     # ---------------- X3 ----------------------------------------------------------------------
+    # book-keeping that indexes its own tables (the checkpoint tracker pops by stored index) must not raise for any legal
+    # sequence of operations: the Tracker tabulation of C04.A1 runs every add / update / push / pop sequence
+    from . import c04 as _c04
+    _c04._tracker(repo, Remap(chk, {'C04.A1': 'C10.X3'}))
     from . import c07, c08
     # every operator rejects an operand of type `empty` (otherwise EmptyAccessor.get raises InternalCompilerError in the
     # generator): the rows of the operator typing matrix with an empty operand (shared with C07.K2)
@@ -427,7 +431,7 @@ def _options_interpreted(repo, chk):
         pass
 
     def construct(ws, ss):
-        g = object.__new__(CG)
+        g = new_codegen(CG)
         g.word_size, g.stack_size, g.unchecked = ws, ss, False
         g.env = _O()
         decl = _O()
@@ -472,7 +476,7 @@ def _int_literal_arm(repo, chk, gf):
     n = 0
     try:
         for ws in (2, 3, 4, 8):
-            g = object.__new__(CG)
+            g = new_codegen(CG)
             g.word_size = ws
             g.stack = ns['StackPoint']()
             M = 1 << (8 * ws)
